@@ -98,6 +98,15 @@ pub fn lock_child(dir: &str) {
     let mut out = std::io::stdout();
     for line in stdin.lock().lines() {
         let Ok(line) = line else { break };
+        if let Some(rest) = line.trim().strip_prefix("hammer ") {
+            let mut it = rest.split_whitespace();
+            let iters: u32 = it.next().and_then(|x| x.parse().ok()).unwrap_or(0);
+            let id: u32 = it.next().and_then(|x| x.parse().ok()).unwrap_or(0);
+            let (g, c) = hammer(dir, iters, id);
+            let _ = writeln!(out, "ok {} {}", g, c);
+            let _ = out.flush();
+            continue;
+        }
         let act = match line.trim() {
             "open" => LockAct::OpenLog,
             "dump" => LockAct::OpenDump,
@@ -113,6 +122,46 @@ pub fn lock_child(dir: &str) {
         let _ = writeln!(out, "{}", s);
         let _ = out.flush();
     }
+}
+
+/// Open / hold briefly / drop in a tight loop. While it owns the directory a contender writes
+/// its own token into `<dir>/witness` and reads it back after a short pause: a different
+/// token means somebody else owned the directory at the same time. Returns (grants, conflicts).
+pub fn hammer(dir: &str, iters: u32, id: u32) -> (u32, u32) {
+    let witness = format!("{}/witness", dir);
+    let mut grants = 0;
+    let mut conflicts = 0;
+    for i in 0..iters {
+        let cfg = lock_config(dir);
+        // mostly the cheap owner (Dump), sometimes a full store
+        let held = if i % 16 == 7 {
+            match std::panic::catch_unwind(|| RaftLog::<VT>::open(cfg)) {
+                Ok(Ok(rl)) => Held::Log(rl),
+                _ => Held::Nothing,
+            }
+        } else {
+            match Dump::<VT>::new(cfg) {
+                Ok(d) => Held::Dump(d),
+                Err(_) => Held::Nothing,
+            }
+        };
+        if let Held::Nothing = held {
+            std::thread::yield_now();
+            continue;
+        }
+        grants += 1;
+        let token = format!("{}-{}", id, i);
+        let _ = std::fs::write(&witness, &token);
+        for _ in 0..(3 + i % 5) {
+            std::thread::yield_now();
+        }
+        match std::fs::read_to_string(&witness) {
+            Ok(t) if t == token => {}
+            _ => conflicts += 1,
+        }
+        drop(held);
+    }
+    (grants, conflicts)
 }
 
 fn act_proc(stdin: &mut ChildStdin, stdout: &mut BufReader<ChildStdout>, act: LockAct) -> Reply {
@@ -174,6 +223,7 @@ struct Outcome {
     cross_process_races: u64,
     refused: u64,
     granted: u64,
+    hammer_grants: u64,
 }
 
 fn run_prog(dir: &str, prog: &LockProg) -> Result<Outcome, Fail> {
@@ -191,7 +241,7 @@ fn run_prog(dir: &str, prog: &LockProg) -> Result<Outcome, Fail> {
         }
     }
     let mut holding: Vec<bool> = vec![false; n];
-    let mut out = Outcome { rounds: 0, multi_open_rounds: 0, cross_process_races: 0, refused: 0, granted: 0 };
+    let mut out = Outcome { rounds: 0, multi_open_rounds: 0, cross_process_races: 0, refused: 0, granted: 0, hammer_grants: 0 };
     let result = (|| -> Result<(), Fail> {
         for (ri, round) in prog.rounds.iter().enumerate() {
             // normalise: a contender that holds nothing cannot drop; a holder cannot open again
@@ -292,6 +342,48 @@ fn run_prog(dir: &str, prog: &LockProg) -> Result<Outcome, Fail> {
                 holding[w] = false;
             }
         }
+        // hammer phase: everybody opens / holds / drops in a tight loop at the same time
+        {
+            let iters = 60u32;
+            let barrier = Barrier::new(n);
+            let mut res: Vec<(u32, u32)> = vec![];
+            std::thread::scope(|s| {
+                let mut hs = vec![];
+                for w in 0..n {
+                    let actor = &actors[w];
+                    let barrier = &barrier;
+                    hs.push(s.spawn(move || {
+                        let mut g = actor.lock().unwrap();
+                        barrier.wait();
+                        match &mut *g {
+                            Actor::Thread(_) => hammer(dir, iters, w as u32),
+                            Actor::Proc { stdin, stdout, .. } => {
+                                if writeln!(stdin, "hammer {} {}", iters, w).is_err() || stdin.flush().is_err() {
+                                    return (0, u32::MAX);
+                                }
+                                let mut line = String::new();
+                                let _ = stdout.read_line(&mut line);
+                                let mut it = line.trim().strip_prefix("ok ").unwrap_or("0 4294967295").split_whitespace().map(|x| x.parse::<u32>().unwrap_or(u32::MAX));
+                                (it.next().unwrap_or(0), it.next().unwrap_or(u32::MAX))
+                            }
+                        }
+                    }));
+                }
+                for h in hs {
+                    res.push(h.join().expect("hammer thread"));
+                }
+            });
+            let grants: u32 = res.iter().map(|r| r.0).sum();
+            out.granted += grants as u64;
+            out.hammer_grants += grants as u64;
+            if let Some((w, r)) = res.iter().enumerate().find(|(_, r)| r.1 > 0) {
+                if r.1 == u32::MAX {
+                    return Err(Fail::new("lock/panic", format!("contender {w} died during the hammer phase")));
+                }
+                return Err(Fail::new("two-owners", format!("hammer phase ({n} contenders x {iters} open/hold/drop iterations): contender {w} found another owner's token in the witness file {} times while it owned the directory", r.1)));
+            }
+            let _ = std::fs::remove_file(format!("{}/witness", dir));
+        }
         for w in [0, n - 1] {
             let mut g = actors[w].lock().unwrap();
             let r = match &mut *g {
@@ -331,7 +423,7 @@ impl Prop for C13 {
     }
     fn rule(&self) -> String {
         "proptest generates programs over 2-5 contenders (1-3 threads of the harness process, 1-2 child processes driven over pipes), as rounds; in each round a generated subset acts simultaneously behind a barrier: RaftLog::open, Dump::new or drop. The directory is a real settled image whose newest chunk gets a torn record appended before every round, so that any open that gets past the lock visibly repairs files. \
-         Oracle (holds in every interleaving): at most one owner at any time; while somebody owns the directory and does not drop in that round, every attempt fails with an error; when nobody owns it and k>=1 contenders try, exactly one succeeds; after everybody dropped, sequential opens by a thread and by a process succeed; \
+         Oracle (holds in every interleaving): at most one owner at any time; while somebody owns the directory and does not drop in that round, every attempt fails with an error; when nobody owns it and k>=1 contenders try, exactly one succeeds; after the rounds every contender runs 60 open/hold/drop iterations at the same time (mostly Dump, every 16th a full store), writing its own token into a witness file while it owns the directory and reading it back — a foreign token means two owners; after everybody dropped, sequential opens by a thread and by a process succeed; \
          the chunk files after a round are byte-identical to before if no store was opened in it, and identical to the result of exactly one recovery (computed on a copy) otherwise; nothing panics. Non-trivial iff >=1 round has >=2 simultaneous openers with >=1 of them in another process; distinct = case hash."
             .to_string()
     }
@@ -369,6 +461,7 @@ impl Prop for C13 {
         info.label_n("rounds_racing_across_processes", out.cross_process_races);
         info.label_n("attempts_refused", out.refused);
         info.label_n("attempts_granted", out.granted);
+        info.label_n("hammer_phase_grants", out.hammer_grants);
         info.nontrivial = out.cross_process_races > 0;
         if info.nontrivial {
             info.sample = Some(json!({"prog": prog}));
